@@ -105,16 +105,10 @@ def run(ctx, chk):
             exp_bound = i['stores'].get(bound_f, None)
             ok_asof = (f[0] == exp_asof) if exp_asof is not None else m.updater_field(f[0]) == asof_f
             ok_bound = (f[2] == exp_bound) if exp_bound is not None else m.updater_field(f[2]) == bound_f
-            if not (ok_asof and ok_bound) and '.<Some>' in str(asof_f):
+            if not (ok_asof and ok_bound) and m.placeholder_record(i, f):
                 # the sample is held in an Option: on a path where it is None there is no sample to carry, and the record
                 # may hold constant place-holders provided it is published as Unknown
-                opt = str(asof_f).split('.<Some>')[0]
-                none_here = any(t_[0] == 't' and t_[1] == 'discr' and m.updater_field(t_[2][0]) == opt and
-                                ((op_ == '==' and val_ == 0) or (op_ == '!=' and 1 in val_)) for t_, op_, val_, _ in i['path'].conds)
-                consts = all(not [y for y in psi.walk(x) if y[0] in ('sym',) or (y[0] == 't' and y[1] in ('call', 'deref'))] for x in (f[0], f[2]))
-                st_unknown = f[-1][0] == 'agg' and f[-1][2] == 'Unknown'
-                if none_here and consts and st_unknown:
-                    ok_asof = ok_bound = True
+                ok_asof = ok_bound = True
             chk.ob('C08.A', 'record:carries-held-sample:%s' % (applied[0] if applied else '-'), ok_asof and ok_bound, where,
                    'record as_of=%s bound=%s' % (fmt(f[0])[-40:], fmt(f[2])[-40:]))
             # ---- B void_after
